@@ -87,6 +87,7 @@ theorem setterC_eq (Q : Quirks) (isSet : Bool) (σ : CState) (v : Assigned) :
       let items := match v with
         | .same => if Q.setterClearsAlias then [] else walkOrder Q isSet σ.c
         | .other xs => walkOrder Q isSet xs
+        | .lazyOf v => walkOrder Q isSet (v.eval (if Q.setterClearsAlias then [] else σ.c))
       ⟨items.foldl (rawAdd isSet) [], σ.calls ++ items⟩ := by
   cases v <;> simp only [setterC, foldl_addItemC]
 
@@ -106,6 +107,16 @@ theorem mem_pySetItem (c : List Nat) (i : Int) (x y : Nat) (h : y ∈ pySetItem 
   split at h
   · exact List.mem_or_eq_of_mem_set h
   · exact Or.inl h
+
+/-- what an iterable over the container yields depends, as a set, only on the container as a set -/
+theorem View.eval_mem_congr (v : View) (c c' : List Nat) (h : ∀ y, y ∈ c ↔ y ∈ c') (y : Nat) :
+    y ∈ v.eval c ↔ y ∈ v.eval c' := by
+  cases v with
+  | filt keep => simp only [View.eval, List.mem_filter, h]
+  | rev => simp only [View.eval, List.mem_reverse, h]
+  | iter => exact h y
+  | chain xs => simp only [View.eval, List.mem_append, h]
+  | keys => simp only [View.eval, mem_foldl_rawAdd, List.not_mem_nil, false_or, h]
 
 /-- one operation outside the triggers keeps model and specification in agreement -/
 theorem stepC_rel (Q : Quirks) (isSet : Bool) (m s : CState) (op : COp) (h : CRel isSet m s)
@@ -189,6 +200,25 @@ theorem stepC_rel (Q : Quirks) (isSet : Bool) (m s : CState) (op : COp) (h : CRe
       constructor
       · rintro (hy | hy); exact hy; exact h.c_in_calls y hy
       · exact Or.inl
+    · intro y hy
+      rcases (mem_foldl_rawAdd _ _ _ _).mp hy with hy | hy
+      · simp at hy
+      · exact List.mem_append_right _ hy
+  | assignView v =>
+    simp only [COp.okFor, Bool.and_eq_true, Bool.not_eq_eq_eq_not, Bool.not_true, Bool.or_eq_true] at hok
+    obtain ⟨hq1, hq2⟩ := hok
+    simp only [stepC, specStepC, setterC_eq, hq1, Bool.false_eq_true, if_false]
+    refine ⟨?_, ?_, ?_, ?_⟩
+    · intro hl
+      subst hl
+      have hq3 : Q.setterHashOrder = false := by simpa using hq2
+      have : ∀ l, walkOrder Q false l = l := by intro l; simp [walkOrder, hq3]
+      simp only [this, h.list_eq rfl]
+    · intro y
+      simp only [mem_foldl_rawAdd, mem_walkOrder, List.not_mem_nil, false_or]
+      exact View.eval_mem_congr v _ _ h.mem_c y
+    · intro y
+      simp only [List.mem_append, mem_walkOrder, h.mem_calls, View.eval_mem_congr v _ _ h.mem_c y]
     · intro y hy
       rcases (mem_foldl_rawAdd _ _ _ _).mp hy with hy | hy
       · simp at hy
@@ -297,7 +327,10 @@ theorem C16_partial (isSet : Bool) (σ : CState) (hσ : ∀ x ∈ σ.c, x ∈ σ
       simp [COp.okFor, this]
   | assignSelf =>
     simp only [trigSelfAssign, List.any_eq_false] at h1
-    exact absurd (by simp) (h1 _ ho)
+    exact absurd rfl (h1 _ ho)
+  | assignView v =>
+    simp only [trigSelfAssign, List.any_eq_false] at h1
+    exact absurd rfl (h1 _ ho)
   | iadd xs =>
     simp only [trigIadd, List.any_eq_false] at h2
     exact absurd rfl (h2 _ ho)
@@ -363,5 +396,151 @@ example :
     (runC Quirks.none false ⟨[], []⟩ ops).c = (specC false ⟨[], []⟩ ops).c ∧
     (runC Quirks.none false ⟨[], []⟩ [.append 3, .assignSelf, .iadd [1, 3], .iaddAlias [2]]).c = [3, 1, 3, 2] := by
   decide
+
+/-! ### Two owners: a field whose first assignment receives another instance's live container -/
+
+structure TRel (isSet : Bool) (m s : TState) : Prop where
+  ra : CRel isSet m.a s.a
+  rb : CRel isSet m.b s.b
+  notBroke : m.broke = false
+
+theorem walkOrder_none_list (xs : List Nat) : walkOrder Quirks.none false xs = xs := by
+  simp [walkOrder, Quirks.none]
+
+/-- a write through one of the two fields while they do not share a container -/
+theorem stepT_on_rel (T : TQuirks) (later isSet : Bool) (m s : TState) (w : Who) (op : COp)
+    (h : TRel isSet m s) (hsh : m.shared = false) (happ : op.applicable isSet = true) :
+    TRel isSet (stepT Quirks.none T later isSet m (.on w op)) (specStepT isSet s (.on w op)) ∧
+    (stepT Quirks.none T later isSet m (.on w op)).shared = false := by
+  have hb := h.notBroke
+  cases w with
+  | A =>
+    simp only [stepT, hb, Bool.false_eq_true, if_false, hsh, specStepT]
+    exact ⟨⟨stepC_rel Quirks.none isSet m.a s.a op h.ra (okFor_none isSet op) happ, h.rb, rfl⟩, trivial⟩
+  | B =>
+    simp only [stepT, hb, Bool.false_eq_true, if_false, hsh, specStepT]
+    exact ⟨⟨h.ra, stepC_rel Quirks.none isSet m.b s.b op h.rb (okFor_none isSet op) happ, rfl⟩, trivial⟩
+
+/-- the adoption itself, whether the container ends up shared or copied, as long as the constructor does not break -/
+theorem stepT_adopt_rel (T : TQuirks) (later isSet : Bool) (m s : TState)
+    (h : TRel isSet m s) (hbr : (T.ctorBreaks && later) = false) :
+    TRel isSet (stepT Quirks.none T later isSet m .adopt) (specStepT isSet s .adopt) := by
+  have hb := h.notBroke
+  have hmem : ∀ y, y ∈ (walkOrder Quirks.none isSet m.a.c).foldl (rawAdd isSet) [] ↔ y ∈ m.a.c := by
+    intro y; simp only [mem_foldl_rawAdd, mem_walkOrder, List.not_mem_nil, false_or]
+  have hlist : isSet = false → (walkOrder Quirks.none isSet m.a.c).foldl (rawAdd isSet) [] = m.a.c := by
+    intro hl; subst hl; rw [walkOrder_none_list, foldl_rawAdd_list]; rfl
+  have rb' : CRel isSet
+      ⟨(walkOrder Quirks.none isSet m.a.c).foldl (rawAdd isSet) [], m.b.calls ++ walkOrder Quirks.none isSet m.a.c⟩
+      ⟨s.a.c.foldl (rawAdd isSet) [], s.b.calls ++ s.a.c⟩ := by
+    refine ⟨?_, ?_, ?_, ?_⟩
+    · intro hl
+      show (walkOrder Quirks.none isSet m.a.c).foldl (rawAdd isSet) [] = s.a.c.foldl (rawAdd isSet) []
+      rw [hlist hl, h.ra.list_eq hl]; subst hl; rw [foldl_rawAdd_list]; rfl
+    · intro y
+      show y ∈ (walkOrder Quirks.none isSet m.a.c).foldl (rawAdd isSet) [] ↔ y ∈ s.a.c.foldl (rawAdd isSet) []
+      rw [hmem, mem_foldl_rawAdd, h.ra.mem_c]; simp
+    · intro y
+      show y ∈ m.b.calls ++ walkOrder Quirks.none isSet m.a.c ↔ y ∈ s.b.calls ++ s.a.c
+      simp only [List.mem_append, mem_walkOrder, h.rb.mem_calls, h.ra.mem_c]
+    · intro y hy
+      change y ∈ (walkOrder Quirks.none isSet m.a.c).foldl (rawAdd isSet) [] at hy
+      show y ∈ m.b.calls ++ walkOrder Quirks.none isSet m.a.c
+      exact List.mem_append_right _ ((mem_walkOrder _ _ _ _).mpr ((hmem y).mp hy))
+  simp only [stepT, hb, Bool.false_eq_true, if_false, specStepT]
+  have hbr' : (T.ctorBreaks && later && !(walkOrder Quirks.none isSet m.a.c).isEmpty) = false := by
+    rw [hbr]; rfl
+  simp only [hbr', Bool.false_eq_true, if_false]
+  cases hT : T.adoptShares
+  · simp only [Bool.false_eq_true, if_false]
+    exact ⟨h.ra, rb', rfl⟩
+  · simp only [if_true]
+    refine ⟨⟨?_, ?_, ?_, ?_⟩, rb', rfl⟩
+    · intro hl
+      show (walkOrder Quirks.none isSet m.a.c).foldl (rawAdd isSet) [] = s.a.c
+      rw [hlist hl, h.ra.list_eq hl]
+    · intro y
+      show y ∈ (walkOrder Quirks.none isSet m.a.c).foldl (rawAdd isSet) [] ↔ y ∈ s.a.c
+      rw [hmem, h.ra.mem_c]
+    · exact h.ra.mem_calls
+    · intro y hy
+      change y ∈ (walkOrder Quirks.none isSet m.a.c).foldl (rawAdd isSet) [] at hy
+      exact h.ra.c_in_calls y ((hmem y).mp hy)
+
+/-- **C16_two_general.** Two owners, any repair state of the adoption: as long as the constructor does not break and
+— when the adopted container is shared — nothing is written after the adoption, both fields hold what Python
+semantics dictate for fields that own their contents, and each owner has asserted exactly what entered ITS field. -/
+theorem C16_two_general (T : TQuirks) (later isSet : Bool) (hbr : (T.ctorBreaks && later) = false)
+    (ops : List TOp) :
+    ∀ (m s : TState), TRel isSet m s → m.shared = false →
+      (∀ op ∈ ops, op.applicable isSet = true) →
+      (T.adoptShares = true → trigAdoptShares ops = false) →
+      TRel isSet (runT Quirks.none T later isSet m ops) (specT isSet s ops) := by
+  induction ops with
+  | nil => intro m s h _ _ _; exact h
+  | cons op ops ih =>
+    intro m s h hsh happ htrig
+    simp only [runT, specT, List.foldl_cons]
+    have happ' : ∀ o ∈ ops, o.applicable isSet = true := fun o ho => happ o (List.mem_cons_of_mem _ ho)
+    cases op with
+    | on w cop =>
+      have h1 := stepT_on_rel T later isSet m s w cop h hsh (by simpa [TOp.applicable] using happ _ List.mem_cons_self)
+      exact ih _ _ h1.1 h1.2 happ' (fun hT => by simpa [trigAdoptShares] using htrig hT)
+    | adopt =>
+      have h1 := stepT_adopt_rel T later isSet m s h hbr
+      cases hT : T.adoptShares
+      · -- copied: the fields stay separate
+        have hsh' : (stepT Quirks.none T later isSet m .adopt).shared = false := by
+          have hbr' : (T.ctorBreaks && later && !(walkOrder Quirks.none isSet m.a.c).isEmpty) = false := by
+            rw [hbr]; rfl
+          simp only [stepT, h.notBroke, Bool.false_eq_true, if_false, hbr', hT]
+          exact hsh
+        exact ih _ _ h1 hsh' happ' (fun hT' => by rw [hT] at hT'; cases hT')
+      · -- shared: nothing follows
+        have : ops = [] := by
+          have := htrig hT
+          simpa [trigAdoptShares] using this
+        subst this
+        exact h1
+
+def TState.start (σ : CState) : TState := ⟨σ, ⟨[], []⟩, false, .A, false⟩
+
+theorem TRel.start (isSet : Bool) (σ : CState) (hσ : ∀ x ∈ σ.c, x ∈ σ.calls) :
+    TRel isSet (TState.start σ) (TState.start σ) :=
+  ⟨CRel.refl_of isSet σ hσ, CRel.refl_of isSet _ (by intro x hx; cases hx), rfl⟩
+
+/-- **C16_two_full.** With a first assignment that gives the new instance a container of its own and a constructor
+that tolerates inference into fields not yet initialised (both quirks off): every two-owner sequence. -/
+theorem C16_two_full (later isSet : Bool) (σ : CState) (hσ : ∀ x ∈ σ.c, x ∈ σ.calls) (ops : List TOp)
+    (happ : ∀ op ∈ ops, op.applicable isSet = true) :
+    TRel isSet (runT Quirks.none TQuirks.none later isSet (TState.start σ) ops) (specT isSet (TState.start σ) ops) :=
+  C16_two_general TQuirks.none later isSet rfl ops _ _ (TRel.start isSet σ hσ) rfl happ (fun h => by cases h)
+
+/-- **C16_two_partial.** The code as it is: the same for fields without a later-declared super-property field on
+the same class, as long as nothing is written after the adoption. -/
+theorem C16_two_partial (isSet : Bool) (σ : CState) (hσ : ∀ x ∈ σ.c, x ∈ σ.calls) (ops : List TOp)
+    (happ : ∀ op ∈ ops, op.applicable isSet = true) (htrig : trigAdoptShares ops = false) :
+    TRel isSet (runT Quirks.none TQuirks.asIs false isSet (TState.start σ) ops) (specT isSet (TState.start σ) ops) :=
+  C16_two_general TQuirks.asIs false isSet rfl ops _ _ (TRel.start isSet σ hσ) rfl happ (fun _ => htrig)
+
+/-- F-C16-5 (test): `b = Cls(f = a.f); b.f.append(2)` — the element shows up in `a.f` and is not recorded for `a` -/
+theorem C16_cex_adopt_shares :
+    let ops : List TOp := [.on .A (.append 1), .adopt, .on .B (.append 2)]
+    trigAdoptShares ops = true ∧
+    (runT Quirks.none TQuirks.asIs false false (TState.start ⟨[], []⟩) ops).a = ⟨[1, 2], [1]⟩ ∧
+    (specT false (TState.start ⟨[], []⟩) ops).a = ⟨[1], [1]⟩ ∧
+    (specT false (TState.start ⟨[], []⟩) ops).b = ⟨[1, 2], [1, 2]⟩ := by decide
+
+/-- F-C16-6 (test): a constructor given initial contents for a field whose super-property field is declared later
+raises -/
+theorem C16_cex_ctor_breaks :
+    (runT Quirks.none TQuirks.asIs true false (TState.start ⟨[], []⟩) [.on .A (.append 1), .adopt]).broke = true ∧
+    (specT false (TState.start ⟨[], []⟩) [.on .A (.append 1), .adopt]).b = ⟨[1], [1]⟩ := by decide
+
+/-- non-vacuity of `C16_two_partial` (test) -/
+example :
+    let ops : List TOp := [.on .A (.extend [3, 1]), .on .A (.assignView (.filt [1])), .adopt]
+    trigAdoptShares ops = false ∧ (∀ op ∈ ops, op.applicable false = true) ∧
+    (runT Quirks.none TQuirks.asIs false false (TState.start ⟨[], []⟩) ops).b = ⟨[1], [1]⟩ := by decide
 
 end KrroodVerif.PD
